@@ -203,7 +203,7 @@ class C07(Prop):
             z = z[:6]            # a double-couple has no isotropic part: the seventh statistic is identically zero
         return [float(v) for v in z], float(out['acceptance_rate']), float(ess)
 
-    def _driver_run(self, dc, seed):
+    def _driver_run(self, dc, seed, mispick=0.0):
         """The chain driver used by the inversion front end (McMCForwardTask) on data with a hard-edged posterior: every proposal the
         forward model evaluates after the learning period must be a tried proposal of the chain."""
         import types
@@ -221,6 +221,10 @@ class C07(Prop):
         a = np.asarray(inv.station_angles(st, 'P'))
         # tiny uncertainties: a large part of the source space has exactly zero likelihood
         data = {'PPolarity': {'Stations': st, 'Measured': np.matrix(np.sign(a.dot(mtrue))).T, 'Error': np.matrix(1e-4 * np.ones((n, 1)))}}
+        if mispick:
+            # per-station mispick probabilities: the posterior is no longer hard-edged, and the driver has to hand them to the forward model
+            data['PPolarity']['IncorrectPolarityProbability'] = np.matrix(mispick * (1 + 0.5 * np.arange(n) / n)).T
+            data['PPolarity']['Error'] = np.matrix(0.35 * np.ones((n, 1)))      # soft picks: the mispick term varies from entry to entry
         a_pol, err_pol, ipp = inv.polarity_matrix(data)
         # amplitude ratios with different fractional errors on numerator and denominator
         asv = np.asarray(inv.station_angles(st, 'SH'))
@@ -316,9 +320,10 @@ class C07(Prop):
     def _extra_rest(self, rng, tier):
         runs = [(True, 3000, 11), (False, 4000, 12)] if tier == 'quick' else [(True, 20000, 11), (False, 40000, 12), (False, 40000, 13)]
         cov, fails = {'posterior_runs': [], 'driver_runs': []}, []
-        for dc, seed in ([(False, 5)] if tier == 'quick' else [(False, 5), (True, 6), (False, 7)]):
-            d = self._driver_run(dc, seed)
+        for dc, seed, mis in ([(False, 5, 0.0), (True, 8, 0.1)] if tier == 'quick' else [(False, 5, 0.0), (True, 6, 0.0), (False, 7, 0.0), (True, 8, 0.1), (False, 9, 0.05)]):
+            d = self._driver_run(dc, seed, mis)
             d['dc'] = dc
+            d['mispick'] = mis
             cov['driver_runs'].append(d)
             # the evaluation that ends the learning period and the one that ends the run are not chain proposals
             if abs(d['evaluated_after_learning'] - d['reported_tried']) > 2 or d['entries'] != d['reported_tried'] + 1:
